@@ -259,9 +259,9 @@ def run(ctx):
         ctx.count("configs")
     # positive controls: each zero-count rule must fire on /verif/controls
     cprog = ctx.controls
-    sub = type(ctx)(ctx.prop, ctx.tier, ctx.repo)
+    sub = ctx.fresh()
     check_fs_calls(sub, cprog, PATH_LOADER, floor=False)
     ctx.control("C17.L1", any(not o[2] for o in sub.obligations if o[0] == "C17.L1.who-may-call"))
-    sub = type(ctx)(ctx.prop, ctx.tier, ctx.repo)
+    sub = ctx.fresh()
     check_safe_join(sub, cprog, "mjsa_controls::c17::weak_join", floor=False)
     ctx.control("C17.L2", any(not o[2] for o in sub.obligations if o[0] == "C17.L2.dotdot-guard"))
